@@ -10,6 +10,7 @@ import (
 	"os"
 	"runtime"
 	"strings"
+	"sync"
 	"time"
 
 	"github.com/GuanceCloud/platypus/pkg/errchain"
@@ -344,6 +345,74 @@ func parseTotal(args []string) (any, error) {
 				}
 			}
 		}
+	}
+	// a host parses from many goroutines: after rejected texts (which take the parser's error path), batches of texts are parsed
+	// several at a time; every one must end as it ends alone - tree for the valid ones, the same positioned error for the others -
+	// without an internal crash (checkParse's postcondition, evaluated per goroutine)
+	if !hung {
+		valid := []string{"x = 1\ny = x + 2", "if a { b = 1 } else { b = 2 }", "for i = 0; i < 3; i = i + 1 { f(i) }", "a = [1, 2, {\"k\": \"v\"}]",
+			"add_key(k, \"text with spaces\")\nx = a[1:2]", "for v in [1, 2] {\nif v { continue }\n}", "x = \"\"\"multi\nline\"\"\"", "y = -5 + `q r`"}
+		rejected := []string{"x = 1 +", "if a {", "x = (1", "x = \"abc", "f(1,", "x = [1", "a b", "x = 'q"}
+		outcome := func(src string) string {
+			ss, err := parser.ParsePipeline("in.p", src)
+			if err != nil {
+				return "error: " + err.Error()
+			}
+			return fmt.Sprintf("tree of %d statements", len(ss))
+		}
+		alone := map[string]string{}
+		for _, t := range append(append([]string{}, valid...), rejected...) {
+			alone[t] = outcome(t)
+		}
+		overl := 0
+		for round := 0; round < 150 && len(sum.Mismatches) < 5; round++ {
+			for k := 0; k <= round%3; k++ { // one to three failed parses first
+				_, _ = parser.ParsePipeline("junk.p", rejected[(round+k)%len(rejected)])
+			}
+			g := 2 + round%7
+			texts := make([]string, g)
+			got := make([]string, g)
+			for i := 0; i < g; i++ {
+				if (i+round)%5 == 4 {
+					texts[i] = rejected[(i+round)%len(rejected)]
+				} else {
+					texts[i] = valid[(i*3+round)%len(valid)]
+				}
+			}
+			batch := func() {
+				var wg sync.WaitGroup
+				for i := 0; i < g; i++ {
+					wg.Add(1)
+					go func(i int) {
+						defer wg.Done()
+						defer func() {
+							if r := recover(); r != nil {
+								got[i] = fmt.Sprintf("panic escaped the parser: %v", r)
+							}
+						}()
+						got[i] = outcome(texts[i])
+					}(i)
+				}
+				wg.Wait()
+			}
+			if stderr := captureStderr(batch); strings.Contains(stderr, "panic") {
+				first := stderr
+				if j := strings.Index(first, "\n"); j > 0 {
+					first = first[:j]
+				}
+				sum.miss("parse-overlapping-crash", map[string]any{"texts": texts, "kind": "parsed while other parses were in flight, after rejected texts",
+					"problem": "the parser crashed internally (recovered, stack printed to stderr): " + first})
+			}
+			for i := 0; i < g; i++ {
+				overl++
+				sum.Evaluations++
+				if got[i] != alone[texts[i]] {
+					sum.miss(fmt.Sprintf("parse-overlapping:%q", texts[i]), map[string]any{"source": texts[i], "kind": "parsed while other parses were in flight, after rejected texts",
+						"alone": alone[texts[i]], "among_overlapping_parses": got[i]})
+				}
+			}
+		}
+		sum.Extra["overlapping_parses"] = overl
 	}
 	sum.sample("x = 1 +")
 	return sum, nil
